@@ -21,6 +21,7 @@ var Harnesses = map[string]func(){
 	"cont.H_Conc":             cont.H_Conc,
 	"cont.H_Release":          cont.H_Release,
 	"cont.H_Misuse":           cont.H_Misuse,
+	"cont.H_Registry":         cont.H_Registry,
 	"cont.H_Faults":           cont.H_Faults,
 	"cont.H_ReleaseChild":     cont.H_ReleaseChild,
 	"cont.H_CloseInCallback":  cont.H_CloseInCallback,
